@@ -239,7 +239,9 @@ def rand_request(rng: random.Random):
     tol = rng.choice([0.01, 1e-3, 0.05])
     mag = rng.choice([1e-3, 1, 1e3, 1e6, 1e7, 1e8, 1e9]) * a
     x0, y0 = rng.uniform(-mag, mag), rng.uniform(-mag, mag)
-    anchor = rng.choice(["edge", "center", "floating", "default", 0.25, xy_(0.1, 0.7), 0, 0.5, rng.random() * 0.99])
+    from odc.geo.types import AnchorEnum
+
+    anchor = rng.choice(["edge", "center", "floating", "default", 0.25, xy_(0.1, 0.7), 0, 0.5, rng.random() * 0.99, AnchorEnum.EDGE, AnchorEnum.CENTER, AnchorEnum.FLOATING])
     axy = _anchor_xy(anchor, False) or (0, 0)
     if rng.random() < 0.5:
         off = lambda r: rng.choice([0, 1e-9, -1e-9, 0.5 * tol, -0.5 * tol, 2 * tol, -2 * tol, 0.5]) * abs(r)
